@@ -115,6 +115,16 @@ std::vector<Scen> scenarios() {
     // ---- set string
     add("SetValuestring(longer)", [](Ctx& c) { c.trees.push_back(P("[\"ab\",1]")); }, [](Ctx& c) { char* r = LIB(cJSON_SetValuestring(c.trees[0]->child, "a considerably longer string")); c.failed = !r; c.repr = wt(c.trees[0]); });
     add("SetValuestring(shorter)", [](Ctx& c) { c.trees.push_back(P("[\"abcdef\",1]")); }, [](Ctx& c) { char* r = LIB(cJSON_SetValuestring(c.trees[0]->child, "ab")); c.failed = !r; c.repr = wt(c.trees[0]); });
+    // every combination of old and new length around the sizes at which an implementation might switch strategy (in place, reallocate, shrink)
+    for (int lo : { 0, 1, 10, 63, 64, 255, 256, 257, 300, 1000, 5000 }) for (int ln : { 0, 1, 10, 63, 64, 255, 256, 257, 300, 1000, 5000 }) {
+        add("SetValuestring(" + std::to_string(lo) + " -> " + std::to_string(ln) + ")", [lo](Ctx& c) { cJSON* a = LIB(cJSON_CreateArray()); LIBV(cJSON_AddItemToArray(a, LIB(cJSON_CreateString(std::string((size_t)lo, 'o').c_str())))); LIBV(cJSON_AddItemToArray(a, LIB(cJSON_CreateNumber(1)))); c.trees.push_back(a); },
+            [ln](Ctx& c) { std::string nv((size_t)ln, 'n'); char* r = LIB(cJSON_SetValuestring(c.trees[0]->child, nv.c_str())); c.failed = !r; c.repr = wt(c.trees[0]); });
+    }
+    // number literals and strings longer than any fixed scratch buffer, well-formed and not (a text the library refuses anyway is a scenario like any other:
+    // the refusal must not depend on the allocator)
+    for (const char* t : { "[1.0000000000000000000000000000000000000000000000000000000000000000000000000000001]", "{\"n\":-eeeeeeeeeeeeeeeeeeeeeeeeeeeeeeeeeeeeeeeeeeeeeeeeeeeeeeeeeeeeeeeeeeeeeeeeeeeeeeeee}", "[12345678901234567890123456789012345678901234567890123456789012,\"x\"]",
+                          "[\"0123456789012345678901234567890123456789012345678901234567890123456789012345678901234567890123456789\",{\"k0123456789012345678901234567890123456789012345678901234567890123456789\":[]}]" })
+        for (int entry = 0; entry < 2; entry++) add(std::string("Parse") + (entry ? "WithLength" : "") + "(long token " + std::string(t).substr(0, 12) + "...)", none, [t, entry](Ctx& c) { c.res_tree = entry ? LIB(cJSON_ParseWithLength(t, strlen(t))) : LIB(cJSON_Parse(t)); c.failed = !c.res_tree; c.repr = wt(c.res_tree); });
     // ---- detach / delete / compare never allocate: a refused request cannot happen, they are listed so that N = 0 is part of the evidence
     add("DetachItemFromObject", [](Ctx& c) { c.trees.push_back(P("{\"a\":1,\"b\":2}")); }, [](Ctx& c) { cJSON* r = LIB(cJSON_DetachItemFromObject(c.trees[0], "a")); c.failed = !r; c.res_tree = r; c.repr = wt(c.trees[0]); });
     return S;
